@@ -134,7 +134,11 @@ def correspondence(ctx):
         "several KB) under 10-16 interleaved operations drawn from SetPayload(i), Sign(i,key), VerifySignature(i), Dump/Load(i) (continuing with the loaded "
         "object) and GetSignableRepresentation of the Metablock twin: after EVERY operation, for EVERY envelope, the dumped payload must be byte for byte "
         "the hand-written reference encoding of the metadata set on that envelope, decode (encoding/json, generic) to exactly that metadata, GetPayload "
-        "must be that metadata, and every stored signature must verify with Go's crypto directly over the PAE of those bytes. value level: random generic values "
+        "must be that metadata, and every stored signature must verify with Go's crypto directly over the PAE of those bytes; hand-built DSSE envelopes "
+        "(class dsse-payload-not-one-document) signed with Go's crypto directly over the PAE of exactly their payload bytes, the payload being one link / "
+        "layout object alone or with white space before / after it (one document: must load, verify, and GetPayload must be that document) or the object "
+        "followed by a second (different or the same) object, by a newline and an object, by garbage, by ] } , null, preceded by junk or by another object, "
+        "wrapped in an array, written as a JSON string, truncated (not exactly one JSON object: LoadMetadata must refuse). value level: random generic values "
         "through cjson.EncodeCanonical and through SetPayload of a link carrying them, and JSON texts (half of them damaged) through "
         "json.Valid+Decoder(UseNumber), against the extracted model. non-trivial = every case (no case is a constant input); distinct = distinct input JSON / input line")
     _value_level(ctx, binp, 20000 if ctx.tier == 'quick' else 600000, corr)
